@@ -74,16 +74,22 @@ func (c *counter) Inc(v int64) {
 }
 
 func (c *counter) value() int64 {
-	curr := atomic.LoadInt64(&c.curr)
-	verifYield(1)
-
-	prev := atomic.LoadInt64(&c.prev)
-	if prev == curr {
-		return 0
+	// Report passes may run concurrently (ticker, Close, re-acquiring a closed
+	// scope): claim the delta [prev, curr) atomically so that it is delivered
+	// exactly once. prev must be loaded before curr.
+	for {
+		prev := atomic.LoadInt64(&c.prev)
+		verifYield(1)
+		curr := atomic.LoadInt64(&c.curr)
+		if prev == curr {
+			return 0
+		}
+		verifYield(2)
+		if atomic.CompareAndSwapInt64(&c.prev, prev, curr) {
+			return curr - prev
+		}
+		verifYield(3)
 	}
-	verifYield(2)
-	atomic.StoreInt64(&c.prev, curr)
-	return curr - prev
 }
 
 func (c *counter) report(name string, tags map[string]string, r StatsReporter) {
